@@ -70,6 +70,12 @@ def run(tier, seed, replay):
     for (line, fl) in v.fails:
         for cl in fl["clauses"]:
             o = fl["case"]["opts"]
+            if cl == "coverage":
+                # C06 asks that lookups / streams AGREE with the advertised coverage and that the output is exactly the
+                # selection (clauses lookup / stream / output / file); the exact formula of the coverage is not prescribed
+                run.observation("coverage_formula", {"what": "advertised coverage differs from T(source coverage) /\\ selection",
+                                                     "opts": o, "cov": fl["case"].get("cov"), "want_cov": fl["case"].get("want_cov")})
+                continue
             rec = {"clause": cl, "flip": o["flip"], "swap": o["swap"], "hasgeo": o["hasgeo"], "case": fl["case"]}
             if line - 1 < len(case_list):
                 rec["replay_case"] = case_list[line - 1]
